@@ -200,9 +200,10 @@ def tampered(events):
 
     def add(e, clause, f):
         if e is not None:
+            base = e["id"]
             f(e)
             e["id"] = 1000000 + len(out)
-            out.append((e, clause))
+            out.append((e, clause, base))
 
     ok_rt = lambda c: (lambda e: e["ev"] == "rt" and e["codec"] == c and e.get("full") and e["d_ok"] and 4 <= e["in_len"] <= 1024)
 
@@ -345,7 +346,7 @@ def run(prop, tier, seed, replay=None):
     tamp = tampered(events) if not replay else []
     if tamp:
         f = tdir / "codec-selftest.ndjson"
-        f.write_text("\n".join(json.dumps(e) for e, _ in tamp) + "\n")
+        f.write_text("\n".join(json.dumps(e) for e, _, _ in tamp) + "\n")
         files.append((99, f))
 
     def one(a):
@@ -363,10 +364,13 @@ def run(prop, tier, seed, replay=None):
     if tamp:
         got = {v["id"]: v for v in verdicts if v["id"] >= 1000000}
         verdicts = [v for v in verdicts if v["id"] < 1000000]
-        missed = [(e["id"], e["ev"], e["codec"], clause) for e, clause in tamp if clause not in got.get(e["id"], {}).get("fail", [])]
-        if missed or len(tamp) < 10:
-            raise vf.ToolError(f"binding self-test: falsified events not rejected as expected: {missed} ({len(tamp)} tampered)")
-        rep.cov["selftest_tampered_events_rejected"] = len(tamp)
+        # only originals the trace spec accepted are a valid basis (a real violation must not be masked by the self-test)
+        unclean = {v["id"] for v in verdicts if v.get("fail")}
+        basis = [(e, clause) for e, clause, base in tamp if base not in unclean]
+        missed = [(e["id"], e["ev"], e["codec"], clause) for e, clause in basis if clause not in got.get(e["id"], {}).get("fail", [])]
+        if missed or (len(basis) < 10 and not unclean):
+            raise vf.ToolError(f"binding self-test: falsified events not rejected as expected: {missed} ({len(basis)} tampered)")
+        rep.cov["selftest_tampered_events_rejected"] = len(basis)
     vf.log(f"judged: {len(verdicts)} non-clean verdicts")
     rep.add_states(st, tr)
     rep.cov["traces_validated_against_impl"] = len(events)
